@@ -5,6 +5,7 @@ package registry
 import (
 	"bytes"
 	"context"
+	"encoding/hex"
 	"encoding/json"
 	"fmt"
 	"go/ast"
@@ -569,6 +570,11 @@ func replay(class string, raw json.RawMessage) (string, bool) {
 		_, out = listFresh()
 	case "statepath":
 		return replayStatePath(in)
+	case "payload":
+		p, _ := hex.DecodeString(in.Payload)
+		q := append([]byte(nil), p...)
+		stateResult(in.Name, p)
+		return fmt.Sprintf("Produce(%q)+Unpack(% x): payload afterwards % x", in.Name, q, p), !bytes.Equal(p, q)
 	case "type":
 		if in.Repo != "" {
 			if s, err := scanSource(in.Repo); err == nil && !contains(s.dptTypes, in.Type) {
